@@ -13,7 +13,7 @@ RULE = ("Bool-typed filters of the Django fragment from the typed grammar (as C0
         "apply_odata_query(Item.objects, filter) vs the reference evaluator on decided rows; a library "
         "exception on a fragment filter or any foreign exception is a violation. Non-trivial: >= 2 "
         "operator/function nodes and >= 1 decided row; distinct by (filter text, rows)."
-        " Every case is followed, in the same process, by its look-alike twins (string-literal case swapped, blanks doubled); rows get needle-derived confuser strings; literal-op-literal arithmetic is generated. Two metamorphic relations decide what the reference leaves open (negative mod, inexact division): every case is followed by companions in which one row's own integer values replace the Int columns (that row must fare alike), and an exhaustive sweep (operator x a x b of either sign x 6 shapes, both operand orders) requires the column form restricted to the rows with i2 = a to select what the all-literal form selects there.")
+        " Every case is followed, in the same process, by its look-alike twins (string-literal case swapped, blanks doubled); rows get needle-derived confuser strings; literal-op-literal arithmetic is generated. Two metamorphic relations that need no reading of div and mod: every case is followed by companions in which one row's own integer values replace the Int columns (that row must fare alike), and an exhaustive sweep (operator x a x b of either sign x 6 shapes, both operand orders) requires the column form restricted to the rows with i2 = a to select what the all-literal form selects there.")
 ASSUMPTIONS = c01.ASSUMPTIONS + ["Django USE_TZ=True/UTC; date-time literals carry Z or an offset",
                                  "SQLite is the only engine"]
 
